@@ -1181,7 +1181,7 @@ theorem putRejects_fileAt (rejs : List (Bytes × Bytes)) : ∀ (fs fs' : FS), pu
     · cases h
     · rename_i k hk
       split at h
-      · cases h
+      · exact ih _ _ h q hq2
       · split at h
         · exact ih _ _ h q hq2
         · split at h
